@@ -40,7 +40,7 @@ CONFIG = {
     'must_sig': ['site:get_subgraph:pyModelChecking.CTL.model_checking:*',
                  'site:get_reachable_set_from:pyModelChecking.kripke:*',
                  'subgraph:dropped_edges', 'subgraph:foreign_nodes',
-                 'reach:proper', 'chain:ops'],
+                 'reach:proper', 'chain:ops', 'chain:mutate_between_ops'],
     'rule': ('cases = (digraph, node subset X, method); enumerated: every '
              'labelled digraph on <=3 nodes x every subset, every 4-node '
              'digraph x a rotating sample (quick) / all 16 (thorough) '
@@ -398,6 +398,25 @@ def drive(rows, order, namer, style, subsets, foreign=False):
             LOG.sig['chain:ops'] += 1
         if n:
             independence(G, names, rows)
+        if n >= 2:
+            # the graph itself changes between operations (add_edge from a
+            # brand-new source, add_node, new edges between old nodes): every
+            # later operation is judged on the graph as it then is
+            LOG.sig['chain:mutate_between_ops'] += 1
+            G.get_subgraph(names[:2])
+            G.add_edge('__new_src__', names[0])
+            G.get_subgraph(['__new_src__'] + names[:2])
+            G.get_reachable_set_from(['__new_src__'])
+            G.get_reversed_graph()
+            G.add_node('__iso__')
+            G.get_subgraph(['__iso__', '__new_src__', names[-1]])
+            try:
+                G.add_edge(names[-1], names[0])
+            except RuntimeError:
+                pass
+            G.get_reachable_set_from([names[-1]])
+            G.clone().get_subgraph(['__new_src__', names[0]])
+            G.get_reversed_graph().get_reachable_set_from([names[0]])
     except Exception as e:
         LOG.violation('c13.get_subgraph', PROP,
                       {'rows': list(rows), 'order': list(order),
